@@ -2577,6 +2577,17 @@ impl<'a, E: quiver_core::effects::Effect> Compiler<'a, E> {
             }
 
             if i < sequence.chains.len() - 1 {
+                // A step that can yield nil fails the whole condition. Unless that nil is the
+                // verdict of the pattern whose narrowing is recorded, "the branch fell through"
+                // does not imply "the pattern did not match" for a pattern recorded by a later
+                // step either: no complement (and no exhaustiveness) may be derived from it.
+                if self.contains_nil(chain_type)
+                    && let Some(n) = narrowing.as_deref_mut()
+                    && !n.is_active()
+                {
+                    n.disable();
+                }
+
                 // Keep the result on the stack for the next chain (threading); short-circuit to the
                 // end of the sequence if it is nil.
                 let end_jump = self.codegen.emit_duplicate_jump_if_nil();
